@@ -777,4 +777,21 @@ theorem intercepted_event_truthful (id : Nat) (h : IcHtlc) (e : IcEv) (he : mkIn
 /-- non-vacuity -/
 example : mkInterceptedEvent 1 ⟨11, some 6000, 5000, 130, some 77⟩ = some ⟨77, 11, 6000, 5000, 1, some 130⟩ := by decide
 
+/-- the expiry sweep (GENERATED `interceptTimedOut`): once the best block is `height`, exactly the held HTLCs whose outgoing expiry is more than
+    HTLC_FAIL_BACK_BUFFER blocks away stay held — none is kept past the fail-back deadline (the inbound HTLC is failed back in time even when its
+    event was never acted on), none is dropped early; its event is still pending or known to the running application (invariant above) -/
+theorem held_intercept_swept_exactly_at_deadline (s : ISt) (height : Nat) (kv : Nat × IcHtlc) :
+    kv ∈ (istep s (.blocks height)).live.held ↔ (kv ∈ s.live.held ∧ height + Ldk.HTLC_FAIL_BACK_BUFFER < kv.2.outgoingCltv) := by
+  simp only [istep, List.mem_filter]
+  have := interceptTimedOut_iff height kv.2
+  cases hto : interceptTimedOut height kv.2
+  · have h2 : ¬ kv.2.outgoingCltv ≤ height + Ldk.HTLC_FAIL_BACK_BUFFER := fun hh => by rw [this.2 hh] at hto; cases hto
+    simp; intro _; omega
+  · have h2 := this.1 hto
+    simp; intro _; omega
+
+/-- non-vacuity: outgoing expiry 130, buffer 39: held at height 90, failed back at height 91 -/
+example : (let h1 : IcHtlc := ⟨11, some 6000, 5000, 130, some 77⟩
+    (heldIds (irun [.intercept 1 h1, .blocks 90]).live, heldIds (irun [.intercept 1 h1, .blocks 91]).live)) = ([1], []) := by decide
+
 end Ldk.C10
